@@ -14,9 +14,11 @@
 //!   bumped right before every drop / wait call, `total` right before every clone); every wait returns once all
 //!   handles are released (else HANG).
 //!
-//! Trace records for the Condvar acceptor: cv.new; actor(k, kind) first thing in every actor; bar.* / wg.* records are
-//! scenario bookkeeping the model does not interpret.  Lock / unlock / wait / notify_all are recognised from the sites
-//! of mutex.rs, poison.rs and condvar.rs.
+//! Trace records for the product acceptor (Sync/BarrierAccept.v: BarrierModel / WaitGroupModel over CondvarModel): cv.new;
+//! actor(k, kind) first thing in every actor; the API records bar.new(n, gens), bar.arrive(g, who) right before
+//! Barrier::wait, bar.leave(g, leader) right after it, wg.new, wg.clone / wg.drop / wg.wait (who) right before the call,
+//! wg.done(who) right after WaitGroup::wait returned, wg.give(k) when the creator has made the clone it moves to worker k.
+//! Lock / unlock / wait / notify_all are recognised from the sites of mutex.rs, poison.rs and condvar.rs.
 use mayv::*;
 use std::alloc::{GlobalAlloc, Layout, System};
 use std::sync::atomic::{AtomicU64, Ordering::SeqCst};
@@ -209,6 +211,7 @@ fn main() {
                 sh.total.fetch_add(1, SeqCst);
                 ctx.log("wg.clone", 99, 0, None);
                 let w = wg.clone();
+                ctx.log("wg.give", k as u64, 0, None);
                 let (sh2, seed, in_co) = (sh.clone(), ctx.rand(), pick_co(ctx));
                 hs.push(spawn_actor(ctx, in_co, format!("w{k}"), move || worker(sh2, k, w, seed)));
             }
